@@ -63,6 +63,12 @@ func recvTypeName(f *types.Func) (pkg, name string) {
 // not recorded by go/types for interface methods, so recv "" matches by package
 // and name only).
 func funcIs(f *types.Func, pkg, recv, name string) bool {
+	if f != nil && f.Pkg() != nil && len(funcRenames) > 0 {
+		_, rn := recvTypeName(f)
+		if o, ok := funcRenames[f.Pkg().Path()+"\t"+rn+"\t"+f.Name()]; ok {
+			return o == pkg+"\t"+recv+"\t"+name || recv == "*" && strings.HasPrefix(o, pkg+"\t") && strings.HasSuffix(o, "\t"+name)
+		}
+	}
 	if f == nil || f.Name() != name {
 		return false
 	}
@@ -88,10 +94,16 @@ func funcKey(f *types.Func) string {
 		p = f.Pkg().Path()
 	}
 	_, rn := recvTypeName(f)
-	if rn != "" {
-		return shortPkg(p) + "." + rn + "." + f.Name()
+	name := f.Name()
+	if o, ok := funcRenames[p+"\t"+rn+"\t"+name]; ok {
+		if pf := strings.Split(o, "\t"); len(pf) == 3 {
+			p, rn, name = pf[0], pf[1], pf[2]
+		}
 	}
-	return shortPkg(p) + "." + f.Name()
+	if rn != "" {
+		return shortPkg(p) + "." + rn + "." + name
+	}
+	return shortPkg(p) + "." + name
 }
 
 func shortPkg(p string) string {
